@@ -95,6 +95,7 @@ func genC20(tier string, r *rng, emit func(string)) {
 		}
 	})
 	sample(3, gens["C05"])
+	genXKinds("C20", emit)
 	// masks through lazy and physical transposition (C15's cases), under every build
 	gens["C15"](tier, r, func(c string) {
 		// (shapes without length-one axes: those are C15's own known-finding zone in every build)
